@@ -176,31 +176,32 @@ def build_circuit(n, wire_names, gate_codes):
     return c
 
 
-def make_router(kind, opts):
+def make_router(kind, opts, conn=None):
     if kind == "ShortestPaths":
-        return ShortestPaths(seed=opts.get("seed"))
+        return ShortestPaths(connectivity=conn, seed=opts.get("seed"))
     if kind == "Sabre":
-        return Sabre(**opts)
-    return StarConnectivityRouter()
+        return Sabre(connectivity=conn, **opts)
+    return StarConnectivityRouter(connectivity=conn)
 
 
-def make_pass(desc):
-    """pass descriptors: ["pre"], ["placer", kind, opts], ["router", kind, opts], ["unroller", natives name]."""
+def make_pass(desc, conn=None):
+    """pass descriptors: ["pre"], ["placer", kind, opts], ["router", kind, opts], ["unroller", natives name];
+    conn: a connectivity graph given to the constructor (None: the pass gets it from the pipeline)."""
     if desc[0] == "pre":
-        return Preprocessing()
+        return Preprocessing(connectivity=conn)
     if desc[0] == "placer":
         kind, opts = desc[1], dict(desc[2])
         if kind == "Random":
-            return Random(**opts)
+            return Random(connectivity=conn, **opts)
         if kind == "Subgraph":
-            return Subgraph()
+            return Subgraph(connectivity=conn)
         if kind == "Star":
-            return StarConnectivityPlacer()
+            return StarConnectivityPlacer(connectivity=conn)
         if kind == "ReverseTraversal":
             r = opts.pop("router")
-            return ReverseTraversal(make_router(r[0], r[1]), **opts)
+            return ReverseTraversal(make_router(r[0], r[1], conn), connectivity=conn, **opts)
     if desc[0] == "router":
-        return make_router(desc[1], dict(desc[2]))
+        return make_router(desc[1], dict(desc[2]), conn)
     if desc[0] == "unroller":
         return Unroller(natives_of(desc[1]))
     raise ValueError(desc)
@@ -276,8 +277,9 @@ def check_output(case, c, before, out, layout, P, D):
         except Exception as e:
             acc[name] = False
             acc[name + "_err"] = f"{type(e).__name__}: {e}"[:200]
-    want_conn = "router" in kinds
-    want_dec = "unroller" in kinds
+    last = lambda k: max([i for i, x in enumerate(kinds) if x == k], default=-1)
+    want_conn = "router" in kinds and last("router") > last("placer")     # a later placer renames the wires
+    want_dec = "unroller" in kinds and last("unroller") > last("router")  # a later router inserts SWAPs
     if not acc["placement"]:
         bad.append(("accept:placement", acc["placement_err"]))
     if want_conn and not acc["connectivity"]:
@@ -306,7 +308,7 @@ def check_output(case, c, before, out, layout, P, D):
                 bad.append(("decomposition", f"{g.name} on {g.qubits} is not native for {case.get('natives')}"))
                 break
     # operator: out == P_f . (in (x) 1) up to a global phase
-    exact = bool(case.get("exact")) and not want_dec
+    exact = bool(case.get("exact")) and "unroller" not in kinds
     Uin = operator(build_circuit(n, case["wire_names"], case["gates"]).queue, n)
     Upad = pad_operator(Uin, n, N)
     want = np.moveaxis(Upad, list(range(N)), f)
@@ -405,6 +407,49 @@ def run_case(case, calls=1, same_circuit=False):
             bad.append(("mutation", "the connectivity graph passed by the caller was modified"))
         if graph_key(P.connectivity) != graph_key(D):
             bad.append(("mutation" if k else "restrict", f"Passes.connectivity has nodes {list(P.connectivity.nodes)} edges {list(P.connectivity.edges)}"))
+        if bad:
+            break
+    return bad
+
+
+def run_shared(case):
+    """the same pass OBJECTS used by several Passes objects (other devices, other labels,
+    on_qubits restrictions), in any interleaving, or built with the connectivity of another
+    device: every call of every pipeline satisfies C11 for ITS OWN device.
+    case: passes, natives, pipelines = [sub-cases], schedule = [indices], ctor = index of the
+    pipeline whose graph is handed to the pass constructors (None: no constructor graph)."""
+    subs = [dict(p, passes=case["passes"], natives=case.get("natives", "default")) for p in case["pipelines"]]
+    conn0 = None
+    if case.get("ctor") is not None:
+        c0 = subs[case["ctor"]]
+        conn0 = build_graph(c0["nodes"], c0["edges"])
+        key0 = graph_key(conn0)
+    objs = [make_pass(d, conn0) for d in case["passes"]]
+    pipes = []
+    for sub in subs:
+        G = build_graph(sub["nodes"], sub["edges"])
+        pipes.append((G, graph_key(G), Passes(objs, connectivity=G, native_gates=natives_of(sub["natives"]),
+                                              on_qubits=sub.get("on_qubits")), device_graph(sub)))
+    bad = []
+    for step, k in enumerate(case["schedule"]):
+        sub = subs[k]
+        G, G0, P, D = pipes[k]
+        c = build_circuit(sub["n"], sub["wire_names"], sub["gates"])
+        before = snapshot(c)
+        where = f"step {step+1} of schedule {case['schedule']} (pipeline {k}, device nodes {list(D.nodes)}, constructor graph {case.get('ctor')})"
+        try:
+            with time_limit(30):
+                out, layout = P(c)
+        except Exception as e:
+            if expected_refusal(sub, e):
+                continue
+            bad.append(("shared:raises", f"{where}: {type(e).__name__}: {e}"))
+            break
+        bad += [("shared:" + kind, f"{where}: {d}") for kind, d in check_output(sub, c, before, out, layout, P, D)]
+        if graph_key(G) != G0 or (conn0 is not None and graph_key(conn0) != key0):
+            bad.append(("shared:mutation", f"{where}: a connectivity graph passed by the caller was modified"))
+        if graph_key(P.connectivity) != graph_key(D):
+            bad.append(("shared:mutation", f"{where}: Passes.connectivity has nodes {list(P.connectivity.nodes)}"))
         if bad:
             break
     return bad
@@ -649,10 +694,57 @@ def make_case(rng, shape=None, style=None, placer="auto", router="auto", unroll=
         passes.append(["unroller", unroll])
     case = {"shape": shape, "nodes": nodes, "edges": edges, "on_qubits": on, "n": n, "wire_names": wn, "gates": gl,
             "passes": passes, "natives": unroll if unroll != "none" else "default",
-            "exact": mode in ("int", "det", "detcnot"), "det": mode in ("det", "detcnot")}
+            "exact": mode in ("int", "det", "detcnot"), "det": mode in ("det", "detcnot"), "mode": mode}
     if case["det"]:
         case["inputs"] = [[rng.randrange(2) for _ in range(n)] for _ in range(2)]
     return case
+
+
+def make_odd(rng, case):
+    """the same pipeline with extra Preprocessing / Unroller passes at arbitrary positions
+    (`Passes.__call__` is a fold over ANY pass list: T11_fold_invariants)."""
+    case = dict(case)
+    passes = [list(p) for p in case["passes"]]
+    unr = [p for p in passes if p[0] == "unroller"]
+    for _ in range(rng.randint(1, 2)):
+        extra = ["pre"] if (not unr or rng.random() < 0.5) else list(unr[0])
+        passes.insert(rng.randint(0, len(passes)), extra)
+    case["passes"] = passes
+    return case
+
+
+def make_shared(rng):
+    """several pipelines that SHARE their pass objects (see SPEC run_shared)."""
+    placer = rng.choice(["none", "none", "Random", "Subgraph", "ReverseTraversal"])
+    router = rng.choice(["ShortestPaths", "Sabre", "Sabre", "none"])
+    unroll = rng.choice(["none", "default", "default"] + NATIVE_NAMES)
+    pre = rng.random() < 0.8
+    variant = rng.choice(["restrict", "restrict", "devices", "labels"])
+    shape = rng.choice(["ring5", "line5", "tee5", "grid6"])
+    style = rng.choice(["id", "perm", "gap", "str"])
+    mode = rng.choice(["det", "det", "named"]) if unroll != "none" else rng.choice(["int", "det"])
+    kw = dict(placer=placer, router=router, unroll=unroll, pre=pre, mode=mode, ngates=rng.randint(1, 7))
+    a = make_case(rng, shape=shape, style=style, restrict=False, **kw)
+    if variant == "restrict":
+        # the same device restricted with on_qubits to a connected subset
+        subs = connected_subsets(a["nodes"], a["edges"], rng.choice([3, 4]))
+        on = list(rng.choice(subs))
+        rng.shuffle(on)
+        n = rng.randint(1, len(on)) if pre else len(on)
+        b = dict(a, on_qubits=on, n=n, wire_names=rng.sample(on, n),
+                 gates=random_recipe(rng, n, rng.randint(1, 7), a["mode"], rng.choice(["none", "trailing"])))
+        if b["det"]:
+            b["inputs"] = [[rng.randrange(2) for _ in range(n)] for _ in range(2)]
+    elif variant == "devices":
+        b = make_case(rng, shape=rng.choice([x for x in ["ring5", "line5", "tee5", "line4", "ring4", "line3", "grid6"] if x != shape]),
+                      restrict=False, **kw)
+    else:
+        b = make_case(rng, shape=shape, style=rng.choice(["perm", "gap", "str"]), restrict=False, **kw)
+    ctor = rng.choice([None, None, 0, 1])
+    schedule = rng.choice([[0, 1], [1, 0], [0, 1, 0], [1, 0, 1], [0, 0, 1]]) if ctor is None else rng.choice([[1 - ctor], [1 - ctor, ctor], [ctor, 1 - ctor]])
+    keep = ("shape", "nodes", "edges", "on_qubits", "n", "wire_names", "gates", "exact", "det", "inputs")
+    return {"passes": a["passes"], "natives": a["natives"], "pipelines": [{k: x[k] for k in keep if k in x} for x in (a, b)],
+            "schedule": schedule, "ctor": ctor, "variant": variant}
 
 
 def case_label(case):
@@ -713,6 +805,7 @@ class Suite:
         self.bad = {}
         self.detail = {}
         self.cases = {}    # suite -> failing info list
+        self.unroll_log = []  # (case, natives name, gates entering a real Unroller call, gates leaving it | None)
 
     def add(self, suite, line, expected, info=None):
         self.lines.append(line)
@@ -944,7 +1037,7 @@ def record_pass(p, log, enc):
 
     def call(self, circuit, *a, **k):
         entry = {"kind": base.__name__, "conn": SPEC["graph_key"](self.connectivity) if getattr(self, "connectivity", None) is not None else None,
-                 "in": (circuit.nqubits, list(circuit.wire_names), [enc.gate(g) for g in circuit.queue])}
+                 "in": (circuit.nqubits, list(circuit.wire_names), [enc.gate(g) for g in circuit.queue]), "in_gates": list(circuit.queue)}
         try:
             r = base.__call__(self, circuit, *a, **k)
         except Exception as e:
@@ -987,7 +1080,7 @@ def pipe_record(ctx, st, case):
             toks.append("PRE")
             if "out" in e:
                 o = e["out_state"]
-                states.append((o[0], [enc.name(w) for w in o[1]], len(o[2]), None))
+                states.append((o[0], [enc.name(w) for w in o[1]], len(o[2]), "keep"))   # an Optimizer leaves final_layout alone
         elif k == "StarConnectivityPlacer":
             toks.append("STAR")
             if "out" in e:
@@ -1012,6 +1105,7 @@ def pipe_record(ctx, st, case):
             else:
                 toks.append("ROUTE ERR")
         elif k == "Unroller":
+            st.unroll_log.append((case, e["in_gates"], list(e["out"].queue) if "out" in e else None))
             if "out" in e:
                 o = e["out_state"]
                 q = o[2]
@@ -1040,6 +1134,120 @@ def pipe_record(ctx, st, case):
     st.add("pipe", line, exp, case)
     ctx.case(("pipe", case_label(case), case["shape"], case["n"], kind))
     ctx.stat("pipe_" + kind)
+
+
+class TableShapes:
+    """shape of the real translation tables (rows reached from given gates), in the token
+    format of DriverC10 / DriverC11: tags = exact parameter values."""
+    TABLES = ["gpi2_dec", "u3_dec", "cz_dec", "iswap_dec", "opt_dec", "cnot_dec_temp"]
+
+    def __init__(self):
+        from qibo.transpiler import decompositions as D
+        self.tables = [getattr(D, t) for t in self.TABLES]
+        self.cls = {f: i for i, f in enumerate(FLAGS)}
+        self.cls["Align"] = 9
+        self.tags = {}
+        self.rows = [dict() for _ in self.tables]
+        self.done = set()
+
+    def cid(self, name):
+        return self.cls.setdefault(name, 10 + len(self.cls))
+
+    @staticmethod
+    def pkey(g):
+        import numpy as np
+        ps = []
+        for p in g.parameters:
+            a = np.asarray(p)
+            ps.append((float(a.real) + 0.0).hex() if a.ndim == 0 else (a.astype(complex) + 0.0).tobytes())
+        return (type(g).__name__, tuple(ps))
+
+    def tag(self, g):
+        return 0 if isinstance(g, gates.M) else self.tags.setdefault(self.pkey(g), len(self.tags) + 1)
+
+    def ugate(self, g):
+        return (self.cid(type(g).__name__), tuple(int(q) for q in g.qubits), self.tag(g), 1 if g.is_controlled_by else 0)
+
+    def close(self, g, depth=0):
+        k = self.pkey(g)
+        if k in self.done or depth > 6:
+            return
+        self.done.add(k)
+        c, t = self.cid(type(g).__name__), self.tag(g)
+        for i, table in enumerate(self.tables):
+            if type(g) not in table.decompositions:
+                continue
+            try:
+                tmpl = list(table._check_instance(g, SPEC["_NB"]))
+            except Exception:
+                continue      # producing the entry raises: no row
+            self.rows[i][(c, t)] = [self.ugate(x) for x in tmpl]
+            for x in tmpl:
+                self.close(x, depth + 1)
+
+    @staticmethod
+    def utoks(u):
+        c, qs, t, cb = u
+        return f"{c} {len(qs)} " + " ".join(map(str, qs)) + f" {t} {cb}"
+
+    def tokens(self):
+        out = []
+        for i, table in enumerate(self.tables):
+            cs = sorted(self.cid(c.__name__) for c in table.decompositions)
+            out.append(f"{len(cs)} " + " ".join(map(str, cs)))
+            out.append(str(len(self.rows[i])))
+            for (c, t), tmpl in sorted(self.rows[i].items()):
+                out.append(f"{c} {t} {len(tmpl)} " + " ".join(self.utoks(u) for u in tmpl))
+        return " ".join(out)
+
+
+def dispatch_suite(ctx, st, rng):
+    """the unroller INSIDE the model: (a) LOCAL — locality of the real tables' shapes (every
+    class of the six tables, boundary and random parameters); (b) DISPATCH — for the real
+    Unroller calls recorded inside real pipeline runs (queues that went through padding,
+    placement and routing), C10's dispatch model on the tables' shapes must return the real
+    result, and closed + local tables must give the contract `unrollOk` (T11_unrollOk_derived)."""
+    import math
+    import numpy as np
+    from vlib import qgates
+    sh = TableShapes()
+    infos = qgates.gate_infos()
+    grid = [0.0, math.pi, -math.pi, math.pi / 2, -math.pi / 2, 2 * math.pi, 1e-9, 0.3, -1.1, 2.0]
+    classes = {c.__name__ for t in sh.tables for c in t.decompositions}
+    for name in sorted(classes):
+        info = infos.get(name)
+        if info is None or not info.generic:
+            continue
+        for j in range(8 if ctx.thorough else 4):
+            vals = [grid[(j + i) % len(grid)] if j < 3 else rng.choice(grid + [round(rng.uniform(-3, 3), 3)]) for i in range(info.np)]
+            try:
+                sh.close(info.make(list(range(info.nq)), vals))
+            except Exception:
+                continue
+            if not info.np:
+                break
+    for g in (gates.Unitary(np.asarray(gates.RY(0, 0.7).matrix(SPEC["_NB"])) @ np.asarray(gates.RZ(0, -0.4).matrix(SPEC["_NB"])), 0),
+              gates.fSim(0, 1, 0.4, 1.1), gates.Unitary(np.asarray(gates.CRY(0, 1, 0.9).matrix(SPEC["_NB"])), 0, 1)):
+        try:
+            sh.close(g)
+        except Exception:
+            pass
+    st.add("local", "LOCAL " + sh.tokens(), "true", {"rows": sum(len(r) for r in sh.rows), "classes": len(classes)})
+    ctx.stat("local_rows_checked", sum(len(r) for r in sh.rows))
+    for case, gin, gout in st.unroll_log[: (1500 if ctx.thorough else 300)]:
+        nat = SPEC["natives_of"](case.get("natives", "default"))
+        sh = TableShapes()
+        for g in gin:
+            sh.close(g)
+        ins = [sh.ugate(g) for g in gin]
+        exp = "ERR" if gout is None else [f"{c}:{','.join(map(str, qs))}:{t}" for c, qs, t, cb in (sh.ugate(g) for g in gout)]
+        if gout is not None:
+            for g in gout:
+                sh.close(g)
+        st.add("dispatch", f"DISPATCH {mask_of(nat)} 8 {sh.tokens()} {len(ins)} " + " ".join(sh.utoks(u) for u in ins), exp,
+               {"passes": case_label(case), "natives": case.get("natives"), "gates": case["gates"], "n": case["n"], "nodes": case["nodes"]})
+        ctx.case(("dispatch", case_label(case), case.get("natives"), len(ins), exp == "ERR"))
+        ctx.stat("dispatch_unroller_calls")
 
 
 def process_driver(ctx, st):
@@ -1105,10 +1313,41 @@ def process_driver(ctx, st):
                 st.note("pipe", f"Passes returned {final}, its last pass produced {want_states[-1]} ({case_label(info)})", info)
             elif not want_states and final[3] is not None:
                 st.note("pipe", f"empty pipeline returned layout {final[3]}", info)
-            if parts[-1][1:].split() != ["1" if b else "0" for b in verdict]:
+            tail, _, fold = parts[-1][1:].partition("@")
+            if tail.split() != ["1" if b else "0" for b in verdict]:
                 st.note("pipe", f"acceptance verdicts: model {parts[-1]} real {verdict} ({case_label(info)})", info)
             if not all(valid):
                 st.note("contract", f"a pass's answer violates the contract the composition theorem assumes: bits {valid} ({case_label(info)})", info)
+            # the fold theorem on this very pass list: flags of the list => real verdicts, layoutAfter = real layout
+            ft = fold.split()
+            flags, flay = [x == "1" for x in ft[:3]], (None if ft[3] == "N" else [int(x) for x in ft[4:]])
+            st.ctx.stat("fold_flags_" + "".join(ft[:3]))
+            if all(valid) and any(f and not v for f, v in zip(flags, verdict[:3])):
+                st.note("fold", f"pass list {case_label(info)}: the fold predicts placed/connectivity/native = {flags}, real assertions say {verdict[:3]}", info)
+            if all(valid) and flags[1] and flags[2] and not verdict[3]:
+                st.note("fold", f"pass list {case_label(info)}: the fold predicts is_satisfied, real is_satisfied is False", info)
+            if flay != final[3]:
+                st.note("fold", f"pass list {case_label(info)}: layoutAfter gives {flay}, Passes returned {final[3]}", info)
+        elif suite == "local":
+            if line != "true":
+                st.note("local", f"the real translation tables are not local (a template gate names a qubit index twice or is a measurement): {info}", info)
+        elif suite == "dispatch":
+            head, _, rest = line.partition("|")
+            bits = head.split()
+            body = [x.strip() for x in rest.split("|")]
+            if bits[1] != "1":
+                st.note("local", f"tables reached from the routed circuit are not local: {info}", info)
+            if exp == "ERR" or body[0] == "ERR":
+                if (exp == "ERR") != (body[0] == "ERR"):
+                    st.note("dispatch", f"unroller inside the model: model {body[0][:120]} / real {str(exp)[:120]} ({info})", info)
+                continue
+            got = body[0].split()[1:]
+            if got != exp:
+                st.note("dispatch", f"unroller inside the model: model {got[:12]} / real {exp[:12]} ({info})", info)
+            elif bits == ["1", "1", "1"] and body[1] != "1":
+                st.note("dispatch", f"closed, local tables and an admissible queue, but unrollOk fails on the dispatch result ({info})", info)
+            elif bits == ["1", "1", "1"]:
+                st.ctx.stat("dispatch_contract_derived")
 
 
 # ---------------------------------------------------------------------------
@@ -1130,6 +1369,9 @@ def search_suite(ctx, rng):
         shape = "star5" if "Star" in (p, r) else rng.choice(MAIN_SHAPES)
         cases.append(make_case(rng, shape=shape, placer=p, router=r, unroll=u, restrict=False if "Star" in (p, r) else "auto",
                                ngates=rng.randint(3, 9)))
+    # arbitrary pass lists: extra Preprocessing / Unroller passes at any position
+    for _ in range(1500 if ctx.thorough else 150):
+        cases.append(make_odd(rng, make_case(rng, ngates=rng.randint(1, 8))))
     # random
     for _ in range(16000 if ctx.thorough else 1300):
         cases.append(make_case(rng))
@@ -1154,10 +1396,66 @@ def search_suite(ctx, rng):
             ctx.stat("search_smaller_than_device")
         if case["det"]:
             ctx.stat("search_outcomes_compared")
+        if len([d for d in case["passes"] if d[0] in ("pre", "unroller")]) > len({d[0] for d in case["passes"] if d[0] in ("pre", "unroller")}):
+            ctx.stat("search_repeated_passes")
         if bad:
             failing.append((case, calls, same, bad))
     ctx.sample({"kind": "pipeline case", "case": {k: cases[0][k] for k in ("nodes", "edges", "on_qubits", "n", "wire_names", "gates", "passes")}})
     return failing, cases
+
+
+def shared_suite(ctx, st, rng):
+    """pass OBJECTS shared by several pipelines / built with another device's graph (SPEC
+    run_shared), and the recorded hand-over: at every call, every pass object of the calling
+    pipeline holds the calling pipeline's connectivity (model: runPassesObj,
+    T11_handover_history_free)."""
+    failing = []
+    for i in range(1500 if ctx.thorough else 160):
+        case = make_shared(rng)
+        try:
+            bad = SPEC["run_shared"](case)
+        except Exception as e:
+            bad = [("harness", f"{type(e).__name__}: {e}")]
+        lab = case_label(case)
+        ctx.case(("shared", lab, case["variant"], tuple(case["schedule"]), case["ctor"], tuple(p["n"] for p in case["pipelines"])))
+        ctx.stat("shared_" + case["variant"])
+        ctx.stat("shared_ctor" if case["ctor"] is not None else "shared_reuse")
+        if bad:
+            failing.append((case, bad))
+        # recorded hand-over on the real objects (independent of the property check above)
+        if i % 2 == 0:
+            try:
+                handover_record(ctx, st, case)
+            except Exception as e:
+                st.note("handover", f"recording failed: {type(e).__name__}: {e} ({lab})", case)
+    ctx.sample({"kind": "shared pass objects", "case": {k: case[k] for k in ("passes", "schedule", "ctor", "variant")}})
+    return failing
+
+
+def handover_record(ctx, st, case):
+    """run the schedule of a shared case with every pass object recording the connectivity
+    it holds when called."""
+    enc = Enc()
+    subs = [dict(p, passes=case["passes"], natives=case.get("natives", "default")) for p in case["pipelines"]]
+    conn0 = None
+    if case.get("ctor") is not None:
+        conn0 = SPEC["build_graph"](subs[case["ctor"]]["nodes"], subs[case["ctor"]]["edges"])
+    objs = [SPEC["make_pass"](d, conn0) for d in case["passes"]]
+    log = []
+    for o in objs:
+        record_pass(o, log, enc)
+    pipes = [SPEC["Passes"](objs, connectivity=SPEC["build_graph"](x["nodes"], x["edges"]), native_gates=SPEC["natives_of"](x["natives"]),
+                            on_qubits=x.get("on_qubits")) for x in subs]
+    for step, k in enumerate(case["schedule"]):
+        del log[:]
+        c = SPEC["build_circuit"](subs[k]["n"], subs[k]["wire_names"], subs[k]["gates"])
+        real_outcome(lambda: pipes[k](c))
+        want = SPEC["graph_key"](SPEC["device_graph"](subs[k]))
+        for e in log:
+            ctx.stat("handover_calls_recorded")
+            if e["conn"] is not None and e["conn"] != want:
+                st.note("handover", f"{e['kind']} was called with a connectivity that is not the calling pipeline's: step {step+1} of schedule "
+                                    f"{case['schedule']}, constructor graph {case.get('ctor')}, passes {case_label(case)}", case)
 
 
 def placer_direct_suite(ctx, rng):
@@ -1273,6 +1571,91 @@ def run_default(case):
     finally:
         _Global._backend, _Global._transpiler = old
     return bad
+
+
+class Plain(NumpyBackend):
+    """a simulator that records what it is asked to execute."""
+    def __init__(self):
+        super().__init__()
+        self.seen = []
+
+    def execute_circuit(self, circuit, initial_state=None, nshots=1000):
+        self.seen.append(circuit)
+        return super().execute_circuit(circuit, initial_state, nshots)
+
+
+def fill(codes, values):
+    return [c.format_map({f"p{i}": v for i, v in enumerate(values)}) for c in codes]
+
+
+def run_params(case):
+    """a HISTORY on one circuit object: executed through the installed transpiler (default
+    transpiler of a hardware-like backend, or qibo.set_transpiler on a simulator), parameters
+    updated (set_parameters list / dict / flat, or gate.parameters), executed again, ...:
+    every execution reports what a freshly built circuit with the CURRENT parameters reports
+    when simulated directly, and the circuit it hands to the backend fits the device."""
+    import qibo
+    old = (_Global._backend, _Global._transpiler)
+    bad = []
+    try:
+        nat0 = NativeGates[list(case["natives_list"])]
+        D = build_graph(case["nodes"], case["edges"])
+        if case["route"] == "default":
+            b = Stub(list(case["nodes"]), [tuple(e) for e in case["edges"]], list(case["natives_list"]))
+            _Global._backend, _Global._transpiler = b, None
+        else:
+            b = Plain()
+            _Global._backend, _Global._transpiler = b, None
+            passes = [Preprocessing()] + ([Random(seed=case["seed"])] if case["route"] == "set+placer" else []) \
+                + [Sabre(seed=case["seed"]) if case["seed"] % 2 else ShortestPaths(seed=case["seed"]), Unroller(nat0)]
+            qibo.set_transpiler(Passes(passes, connectivity=D, native_gates=nat0))
+        n, N = case["n"], len(case["nodes"])
+        c = build_circuit(n, case["wire_names"], fill(case["gates"], case["history"][0][1]))
+        for k, (mode, values) in enumerate(case["history"]):
+            label = f"execution {k+1} (after {[m for m, _ in case['history'][1:k+1]]})"
+            if k > 0:
+                per_gate, flat, it = [], [], iter(eval(v, {"np": np}) for v in values)
+                for g in c.parametrized_gates:
+                    v = next(it)
+                    per_gate.append((v, 0.0, 0.0) if isinstance(g, gates.U3) else v)
+                    flat += [v, 0.0, 0.0] if isinstance(g, gates.U3) else [v]
+                if mode == "list":
+                    c.set_parameters(per_gate)
+                elif mode == "dict":
+                    c.set_parameters(dict(zip(c.parametrized_gates, per_gate)))
+                elif mode == "flat":
+                    c.set_parameters(flat)
+                else:
+                    for g, v in zip(c.parametrized_gates, per_gate):
+                        g.parameters = v
+            ref = build_circuit(n, case["wire_names"], fill(case["gates"], values))
+            bits = case["inputs"][k % len(case["inputs"])]
+            try:
+                r = c(initial_state=basis_state(list(bits) + [0] * (N - n)), nshots=6)
+            except Exception as e:
+                bad.append(("params:raises", f"{label}: {type(e).__name__}: {e}"))
+                break
+            out = b.seen[-1]
+            if out.nqubits != N or set(out.wire_names) != set(case["nodes"]):
+                bad.append(("params:placement", f"{label}: executed circuit has wire_names {out.wire_names}"))
+                break
+            for g in out.queue:
+                if isinstance(g, gates.M):
+                    continue
+                if len(g.qubits) == 2 and not D.has_edge(out.wire_names[g.qubits[0]], out.wire_names[g.qubits[1]]):
+                    bad.append(("params:connectivity", f"{label}: {g.name}{g.qubits} off the device edges"))
+                if not (getattr(NativeGates, type(g).__name__, NativeGates.NONE) & nat0):
+                    bad.append(("params:decomposition", f"{label}: {g.name} is not native for {case['natives_list']}"))
+            fa = frequencies(ref, bits, nshots=6)
+            fb = (dict(r.frequencies(binary=True)), {regname_str(k2): dict(v) for k2, v in r.frequencies(binary=True, registers=True).items()})
+            if fa != fb:
+                bad.append(("params:samples", f"{label}: parameters {values}, input bits {bits}: the circuit object executed through the "
+                            f"transpiler reports {fb}, a fresh circuit with the same parameters {fa}"))
+            if bad:
+                break
+    finally:
+        _Global._backend, _Global._transpiler = old
+    return bad
 '''
 
 
@@ -1304,6 +1687,86 @@ def default_suite(ctx, rng):
         if bad:
             failing.append((case, bad))
     return failing
+
+
+PAR_1Q = ["gates.RX({0}, theta={{p}})", "gates.RY({0}, theta={{p}})", "gates.U3({0}, {{p}}, 0.0, 0.0)"]
+PAR_2Q = ["gates.CRX({0},{1}, {{p}})", "gates.CRY({0},{1}, {{p}})", "gates.RXX({0},{1}, {{p}})", "gates.RYY({0},{1}, {{p}})"]
+DIAG_1Q = ["gates.RZ({0}, {{p}})", "gates.U1({0}, {{p}})"]
+DIAG_2Q = ["gates.CRZ({0},{1}, {{p}})", "gates.CU1({0},{1}, {{p}})", "gates.RZZ({0},{1}, {{p}})"]
+FLIP_ANGLES = ["0.0", "np.pi", "-np.pi", "2*np.pi", "3*np.pi"]
+
+
+def params_case(rng, i):
+    """a circuit with deterministic outcomes for every parameter vector of its history:
+    rotations about X / Y by multiples of pi, diagonal gates with arbitrary angles."""
+    nat_lists = [["CZ", "GPI2", "RZ", "Z", "I", "M"], ["CZ", "U3", "RZ", "Z", "I", "M"], ["iSWAP", "GPI2", "RZ", "Z", "I", "M"],
+                 ["CZ", "iSWAP", "U3", "RZ", "Z", "I", "M"]]
+    shape = rng.choice(MAIN_SHAPES + ["line3", "line4", "grid6"])
+    nodes, edges = label_device(rng, shape, rng.choice(["id", "perm", "gap", "str"]))
+    N = len(nodes)
+    n = rng.randint(1, N)
+    wn = rng.sample(nodes, n)
+    if all(isinstance(x, int) for x in nodes) and set(range(n)) <= set(nodes) and rng.random() < 0.3:
+        wn = None
+    codes, kinds = [], []
+    for _ in range(rng.randint(2, 7)):
+        two = n >= 2 and rng.random() < 0.5
+        r = rng.random()
+        qs = rng.sample(range(n), 2) if two else [rng.randrange(n)]
+        if r < 0.55:
+            pool, kind = (PAR_2Q, "flip") if two else (PAR_1Q, "flip")
+        elif r < 0.7:
+            pool, kind = (DIAG_2Q, "diag") if two else (DIAG_1Q, "diag")
+        else:
+            pool, kind = (CNOT_2Q, None) if two else (DET_1Q, None)
+        code = rng.choice(pool).format(*qs)
+        if kind:
+            code = code.replace("{p}", "{p%d}" % len(kinds))
+            kinds.append(kind)
+        codes.append(code)
+    if not kinds:
+        codes.insert(0, "gates.RX(0, theta={p0})")
+        kinds.append("flip")
+    qs = list(range(n))
+    rng.shuffle(qs)
+    qs = qs[: rng.randint(1, n)]
+    reg = 0
+    while qs:
+        k = rng.randint(1, len(qs))
+        part, qs = qs[:k], qs[k:]
+        codes.append(f"gates.M({','.join(map(str, part))}, register_name='r{reg}')")
+        reg += 1
+    val = lambda kind: rng.choice(FLIP_ANGLES) if kind == "flip" else repr(round(rng.uniform(-3, 3), 3))
+    history = [("build", [val(k) for k in kinds])]
+    for _ in range(rng.randint(1, 3)):
+        history.append((rng.choice(["list", "list", "dict", "flat", "gate"]), [val(k) for k in kinds]))
+    return {"nodes": nodes, "edges": edges, "natives_list": nat_lists[i % len(nat_lists)], "n": n, "wire_names": wn, "gates": codes,
+            "history": history, "route": ["default", "set", "set+placer"][i % 3], "seed": rng.randrange(1, 1000),
+            "inputs": [[rng.randrange(2) for _ in range(n)] for _ in range(2)]}
+
+
+def params_suite(ctx, rng):
+    env = dict(SPEC)
+    exec(compile(STUB_SRC, "<C11 stub>", "exec"), env)
+    failing = []
+    for i in range(400 if ctx.thorough else 60):
+        case = params_case(rng, i)
+        try:
+            bad = env["run_params"](case)
+        except Exception as e:
+            bad = [("harness", f"{type(e).__name__}: {e}")]
+        ctx.case(("params", case["route"], case["n"], len(case["nodes"]), tuple(m for m, _ in case["history"]), tuple(case["natives_list"])))
+        ctx.stat("params_histories")
+        ctx.stat("params_route_" + case["route"])
+        if bad:
+            failing.append((case, bad))
+    ctx.sample({"kind": "parameter-update history", "case": {k: case[k] for k in ("gates", "history", "route", "n")}})
+    return failing
+
+
+def params_replay(case, kinds):
+    return (SPEC_SRC + STUB_SRC + "\ncase = " + repr(case) + "\nbad = run_params(case)\nprint(bad)\n"
+            + f"assert not [b for b in bad if b[0] in {sorted(kinds)!r}], bad\n")
 
 
 def default_replay(case, kinds):
@@ -1401,16 +1864,19 @@ def run(ctx):
             pipe_record(ctx, st, case)
         except Exception as e:
             st.note("pipe", f"recording failed: {type(e).__name__}: {e} ({case_label(case)})", case)
+    dispatch_suite(ctx, st, rng)
+    sbad = shared_suite(ctx, st, rng)
     process_driver(ctx, st)
     pbad = placer_direct_suite(ctx, rng)
     dbad = default_suite(ctx, rng)
+    hbad = params_suite(ctx, rng)
 
     # failing inputs on the real code ------------------------------------------------
     seen = set()
     corr_of = {"padding": ["C11_corr_pad", "C11_corr_pipeline"], "placement": ["C11_corr_pipeline"], "layout": ["C11_corr_pipeline"],
                "accept:is_satisfied": ["C11_corr_asserts", "C11_corr_pipeline"], "accept:connectivity": ["C11_corr_pipeline", "C11_corr_contracts"],
                "accept:decomposition": ["C11_corr_pipeline", "C11_corr_contracts"], "connectivity": ["C11_corr_contracts"],
-               "decomposition": ["C11_corr_contracts"], "measurements": ["C11_corr_contracts"], "registers-dropped": ["C11_corr_contracts"], "restrict": ["C11_corr_restrict"]}
+               "decomposition": ["C11_corr_contracts", "C11_corr_dispatch"], "measurements": ["C11_corr_contracts"], "registers-dropped": ["C11_corr_contracts"], "restrict": ["C11_corr_restrict"]}
     for case, calls, same, bad in failing:
         for kind in sorted({k for k, _ in bad}):
             det = next(d for k, d in bad if k == kind)
@@ -1435,6 +1901,30 @@ def run(ctx):
             ctx.fail(key, f"default transpiler of a backend with qubits {case['nodes']}, connectivity {case['edges']}, natives {case['natives_list']}; "
                           f"circuit n={case['n']} wire_names={case['wire_names']} gates={case['gates']}: {next(d for k, d in bad if k == kind)}"[:900],
                      default_replay(case, {kind}), expected="no violation of C11", observed=[list(b) for b in bad][:4], broken=["C11_search_default_transpiler"])
+    seen_s = set()
+    for case, bad in sbad:
+        for kind in sorted({k for k, _ in bad}):
+            key = "shared-passes:" + kind.split(":", 1)[-1]
+            if key in seen_s:
+                continue
+            seen_s.add(key)
+            ctx.fail(key, f"pass objects {case_label(case)} shared by the pipelines {[(p['nodes'], p['on_qubits']) for p in case['pipelines']]} "
+                          f"(schedule {case['schedule']}, constructor graph of pipeline {case['ctor']}): {next(d for k, d in bad if k == kind)}"[:900],
+                     SPEC_SRC + "\ncase = " + repr(case) + "\nbad = run_shared(case)\nprint(bad)\nassert not bad, bad\n",
+                     expected="every pipeline transpiles for its own device, whatever its pass objects were used for before",
+                     observed=[list(b) for b in bad][:4], broken=["C11_search_shared_passes", "C11_corr_handover"])
+    seen_h = set()
+    for case, bad in hbad:
+        for kind in sorted({k for k, _ in bad}):
+            key = "execute-history:" + kind.split(":", 1)[-1]
+            if key in seen_h:
+                continue
+            seen_h.add(key)
+            ctx.fail(key, f"one circuit object executed through the installed transpiler ({case['route']}) on device {case['nodes']} {case['edges']}, "
+                          f"natives {case['natives_list']}; circuit n={case['n']} wire_names={case['wire_names']} gates={case['gates']}, "
+                          f"parameter history {case['history']}: {next(d for k, d in bad if k == kind)}"[:900],
+                     params_replay(case, {kind}), expected="every execution reports the outcomes of the circuit with its current parameters",
+                     observed=[list(b) for b in bad][:4], broken=["C11_search_execute_history"])
     # correspondence failures: name a concrete input of the suite as the failing input if the
     # search did not find one (model and code disagree = one of them is not what the theorems are about)
     for suite, obname in (("star", "C11_corr_star_placer"),):
@@ -1465,10 +1955,19 @@ def run(ctx):
     ctx.ob("C11_corr_star_placer", not st.bad.get("star") and not st.bad.get("placerprop"), "correspondence", st.detail.get("star", st.detail.get("placerprop", "")))
     ctx.ob("C11_corr_restrict", not st.bad.get("restrict"), "correspondence", st.detail.get("restrict", ""))
     ctx.ob("C11_corr_sorted", not st.bad.get("sort"), "correspondence", st.detail.get("sort", ""))
-    ctx.ob("C11_corr_pipeline", not st.bad.get("pipe") and not st.bad.get("handover"), "correspondence", st.detail.get("pipe", st.detail.get("handover", "")))
+    ctx.ob("C11_search_shared_passes", not sbad, "search", f"{len(sbad)} failing cases; first: {sbad[0][1][:2]}" if sbad else "")
+    ctx.ob("C11_search_execute_history", not hbad, "search", f"{len(hbad)} failing cases; first: {hbad[0][1][:2]}" if hbad else "")
+    ctx.ob("C11_corr_handover", not st.bad.get("handover"), "correspondence", st.detail.get("handover", ""))
+    ctx.ob("C11_corr_fold", not st.bad.get("fold"), "correspondence", st.detail.get("fold", ""))
+    ctx.ob("C11_tables_local", not st.bad.get("local"), "correspondence", st.detail.get("local", ""))
+    ctx.ob("C11_corr_dispatch", not st.bad.get("dispatch"), "correspondence", st.detail.get("dispatch", ""))
+    ctx.ob("C11_corr_pipeline", not st.bad.get("pipe"), "correspondence", st.detail.get("pipe", ""))
     ctx.ob("C11_corr_contracts", not st.bad.get("contract"), "correspondence", st.detail.get("contract", ""))
     ctx.sample({"suite": "pipeline replay", "meaning": "every pass object of a real Passes.__call__ logs its call; the Lean model runPasses is fed the oracle answers (placer wire names, routed queue + layout, unrolled queue), must reproduce nqubits / wire_names / queue length / final layout after every pass and the four acceptance verdicts, and validates each answer against the contract T11_compose assumes (permOf, routeOk, unrollOk)"})
     ctx.sample({"suite": "property search", "meaning": "is_satisfied and each assert_* on the output, independent edge / native test, exact (integer data) or up-to-phase operator identity out == P_layout . (in (x) 1), own wires kept by padding, registers and qubit order of measurements, outcomes on basis states, input and graph not mutated, Passes object and circuit object reused"})
-    ctx.trusted.append("placer searches (Random sampling, Subgraph isomorphism, ReverseTraversal), routers and unroller are oracles of the pipeline model: their answers are validated on every run (permOf / routeOk / unrollOk), their internals are C09 / C10")
+    ctx.sample({"suite": "unroller inside the model", "meaning": "LOCAL: localCheck on the shapes of all six real translation tables (every class, boundary and random parameters) = hypothesis TablesLocal of T11_unrollOk_derived; DISPATCH: for the real Unroller calls recorded inside real pipeline runs, C10's dispatch model on the real tables' shapes returns the real unrolled queue gate by gate, and closedCheck && localCheck && unrollInputOk give unrollOk (T11_dispatch_pass_valid)"})
+    ctx.sample({"suite": "fold", "meaning": "PIPE lines carry arbitrary pass lists (extra Preprocessing / Unroller passes at any position); the driver evaluates placedAfter / connAfter / decAfter / layoutAfter of the list: the flags must imply the real assert_* verdicts and is_satisfied, layoutAfter must be the layout Passes returned (T11_fold_invariants, T11_fold_layout)"})
+    ctx.sample({"suite": "histories", "meaning": "shared pass objects: the same Preprocessing / placer / router / unroller INSTANCES in two Passes objects (other device, other labels, on_qubits restriction), interleaved schedules, passes constructed with another device's graph: every call is checked with the full spec for its own device and every pass object must hold the calling pipeline's connectivity when called; execute histories: one circuit object executed through set_transpiler / a stub backend's default transpiler, parameters updated by set_parameters (list, dict, flat) or gate.parameters, executed again: registers compared with a fresh circuit simulated directly"})
+    ctx.trusted.append("placer searches (Random sampling, Subgraph isomorphism, ReverseTraversal) and routers are oracles of the pipeline model: their answers are validated on every run (permOf / routeOk), their internals are C09; the unroller's contract unrollOk is derived from C10's dispatch model and the locality / closure of the real tables' shapes (decided on every run), and still validated on every recorded run")
     ctx.trusted.append("measurements enter the operator identity as a fixed 2x2 marker on each measured qubit; outcomes are compared on basis-state inputs of deterministic circuits")
     ctx.notes.append("devices: 5-node star / line / ring / T, 2-4-node lines and ring, 2x3 grid, labels = ints in order, permuted ints, ints with gaps, strings; on_qubits restrictions to connected 3-5 node subsets; circuits of 1..N qubits with wire-name subsets in arbitrary order or default names; placers none / Random / Subgraph / ReverseTraversal(Sabre|ShortestPaths, depth) / StarConnectivityPlacer x routers ShortestPaths / Sabre / StarConnectivityRouter / none x 8 native sets / no unroller, with and without Preprocessing; trailing registers with unsorted qubits, one-qubit mid-circuit and collapsing measurements; calls repeated on the same Passes object (fresh and same circuit); default transpiler through a stub backend")
